@@ -172,14 +172,16 @@ def run_job(job, rec):
             th2[tm.size] += 0.5          # second in-place update of the same array object: judged
             th2[0] += 0.1 * p["y_scale"]
             K2 = R.data_cov(p["spec"], x, th2[tm.size:]) + S + np.diag(jit)
-            if np.linalg.cond(K2) < 1e9:
+            cond2 = np.linalg.cond(K2)
+            if cond2 < 1e9:
+                fac2 = 500 * eps * max(cond2, 1.0)     # the conditioning of the covariance at the *new* values decides the rounding
                 m2 = R.mean(p["mean"], x, th2[: tm.size], x)
                 ref2 = R.mvn_logpdf_no_const(y, m2, K2)
                 v2 = guarded(gp.marginal_likelihood, th2)
                 vg2 = guarded(gp.marginal_likelihood_gradient, th2)
                 rec.count("in_place_theta_updates")
                 sc2 = abs((y - m2) @ np.linalg.solve(K2, y - m2)) + abs(np.linalg.slogdet(K2)[1]) + n
-                ok2 = (not isinstance(v2, Raised)) and (not isinstance(vg2, Raised)) and abs(float(v2) - ref2) <= (fac + 1e-9) * sc2 and abs(float(vg2[0]) - ref2) <= (fac + 1e-9) * sc2
+                ok2 = (not isinstance(v2, Raised)) and (not isinstance(vg2, Raised)) and abs(float(v2) - ref2) <= (fac2 + 1e-9) * sc2 and abs(float(vg2[0]) - ref2) <= (fac2 + 1e-9) * sc2
                 rec.check(ok2, "stale-after-in-place-update",
                           lambda: f"{desc}: marginal likelihood after an in-place change of the theta array is {v2!r} / {vg2[0] if not isinstance(vg2, Raised) else vg2!r}, the MVN log-density at the new values is {ref2!r}", rec.context)
 
